@@ -1,4 +1,4 @@
-import OmplModel.Proofs.PlannerProtoPath
+import OmplModel.Proofs.PlannerProtoRoots
 /-!
 # C03 — interrupting, resuming or clearing a planner never corrupts its result
 
@@ -36,23 +36,49 @@ theorem solve_status_truthful (cs : CoreSpec σ δ D C) (P : Params σ δ) (m : 
         (solve cs P m k ds).added = [] ∧ (solve cs P m k ds).m.pdef = m.pdef) :=
   solve_spec cs P m k ds
 
-/-- **A reported path is never empty**: every solution a `solve` call adds has at least one state and is the
-root-to-motion path of a motion that is in the tree when the call returns (never a half-built chain through a
-motion that does not exist).
-
-Full statement wanted by the property: "… and starts at a start state of the CURRENT problem definition".  That
-part is false for histories that replace the problem definition without `clear()` (`setProblemDefinition` keeps
-the tree, see `setProblemDefinition_keeps_core` and finding F-C03-1), and is left to the check's oracle for
-histories that do clear; hence `_partial`. -/
-theorem solve_never_empty_path_partial (cs : CoreSpec σ δ D C) (hl : LawfulCore cs) (P : Params σ δ) (m : M σ δ C)
+/-- **A reported path is never empty** (any lawful core, any machine state, no hypothesis on the history): every
+solution a `solve` call adds has at least one state and is the root-to-motion path of a motion that is in the tree
+when the call returns (never a half-built chain through a motion that does not exist). -/
+theorem solve_path_nonempty (cs : CoreSpec σ δ D C) (hl : LawfulCore cs) (P : Params σ δ) (m : M σ δ C)
     (k : Nat) (ds : List D) :
     ∀ s ∈ (solve cs P m k ds).added, s.path ≠ [] ∧
       ∃ i, i < cs.size (solve cs P m k ds).m.core ∧ s.path = cs.pathTo (solve cs P m k ds).m.core i :=
   solve_added cs hl P m k ds
 
+/-- **… and it starts at a start state** (RRT-like core): for every history after which the tree cannot hold
+motions of a replaced query — `dirtyAfter … = false`: since the last `setProblemDefinition` /
+`setStartAndGoalStates` that hit a non-empty tree, `clear()` (or `clearQuery()`) was called — every path added by the
+next `solve` (any `k`, any oracle answers) is non-empty and its first state is a VALID start state of the planner's
+current problem definition.  Without the hypothesis the statement is false on the code as written
+(`setProblemDefinition_keeps_core`, finding F47). -/
+theorem solve_never_empty_path (P : Params σ δ) (ops : List (Op σ (Draw σ δ)))
+    (hclean : dirtyAfter P (M.init rc) false ops = false) (k : Nat) (ds : List (Draw σ δ)) :
+    ∀ s ∈ (solve rc P (reach rc P ops) k ds).added, s.path ≠ [] ∧
+      ∃ st, s.path.head? = some st ∧ validStart (solve rc P (reach rc P ops) k ds).m st := by
+  have I := run_inv P ops (M.init rc) false wf_empty (by intro i hi; simp [M.init] at hi)
+    (fun _ => pure_of_empty _ rfl)
+  intro s hs
+  exact ⟨(solve_added rc rrt_lawful P _ k ds s hs).1, solve_head P _ k ds I.1 (I.2.2 hclean) s hs⟩
+
+/-- **`lastGoalMotion_` never dangles** (RRT-like core, every history): it is null or the index of a motion of the
+current tree, so `getPlannerData` never reads a freed motion — `clear()` resets it together with `freeMemory()`. -/
+theorem lastGoalMotion_never_dangles (P : Params σ δ) (ops : List (Op σ (Draw σ δ))) :
+    (∀ i, (reach rc P ops).lastGoal = some i → i < (reach rc P ops).core.size) ∧
+      (plannerData rc (reach rc P ops)).2.2 = false := by
+  have I := run_inv P ops (M.init rc) false wf_empty (by intro i hi; simp [M.init] at hi)
+    (fun _ => pure_of_empty _ rfl)
+  refine ⟨I.2.1, ?_⟩
+  unfold plannerData
+  cases h : (reach rc P ops).lastGoal with
+  | none => rfl
+  | some i =>
+    have hi := I.2.1 i h
+    show decide ((reach rc P ops).core.size ≤ i) = false
+    exact decide_eq_false (Nat.not_le_of_lt hi)
+
 /-- **`setProblemDefinition` does not forget** (the code as written: `pdef_ = pdef; pis_.update();`): the core —
 the whole tree of the previous query, old start states included — and `lastGoalMotion_` survive; only the
-`PlannerInputStates` counters restart.  This is the model-level statement of finding F-C03-1. -/
+`PlannerInputStates` counters restart.  This is the model-level statement of finding F47. -/
 theorem setProblemDefinition_keeps_core (cs : CoreSpec σ δ D C) (P : Params σ δ) (m : M σ δ C) (id : Nat)
     (ss : List (σ × Bool)) :
     (step cs P m (.setProblemDefinition id ss)).core = m.core ∧
@@ -145,5 +171,13 @@ example : (solve coreN Pn (reach coreN Pn [.setProblemDefinition 1 [(7, false)]]
 example : (reach coreN Pn [.setProblemDefinition 1 [(7, true)], .solve 0 []]).log =
     [.alloc 0, .alloc 1, .alloc 2, .free 2, .free 1] := by decide
 example : LawfulCore coreN := rrt_lawful
+/-- the hypothesis of `solve_never_empty_path` is satisfiable by histories that switch the problem definition
+(switch on a non-empty tree, then `clear()`), and is violated by the same history without the `clear()` -/
+example : dirtyAfter Pn (M.init rc) false
+    [.setProblemDefinition 1 [(7, true)], .solve 1 [⟨0, true, 8, false, 5⟩], .setProblemDefinition 2 [(3, true)], .clear] = false := by
+  decide
+example : dirtyAfter Pn (M.init rc) false
+    [.setProblemDefinition 1 [(7, true)], .solve 1 [⟨0, true, 8, false, 5⟩], .setProblemDefinition 2 [(3, true)]] = true := by
+  decide
 
 end OmplModel.Props.C03
